@@ -44,6 +44,8 @@ MCInit == \/ \E s \in Strs : InitWith([op |-> "pct", in |-> s])
                 InitWith([op |-> "spec_reuse", proto |-> p, used |-> u, base |-> b])
           \/ \E p \in {"connect", "grpc", "grpcweb"}, u \in {"badoption", "badurl"} :
                 InitWith([op |-> "client_init_fail", proto |-> p, used |-> u])
+          \* C11: error metadata when the error payload exceeds the client's read limit
+          \/ \E p \in {"connect", "grpc", "grpcweb"} : InitWith([op |-> "errmeta_limit", proto |-> p])
           \* C10: a stream created under a deadline and first used later
           \/ \E p \in {"connect", "grpc", "grpcweb"}, k \in {"client", "bidi"}, w \in {0, 300} :
                 InitWith([op |-> "deadline_wait", proto |-> p, used |-> k, secs |-> 5, d |-> w])
